@@ -9,17 +9,50 @@ import (
 
 	"qeepverif/evid"
 	"qeepverif/lib"
+	"qeepverif/ref"
 )
 
 // AccStep: "acc" accumulates predictions P against targets T (equal lengths; Bad == -1: one
 // tensor object serves as both); "bad" is an invalid call (Bad: 1 nil prediction, 2 nil target,
 // 3 rank-0 inputs, 4 rank-2 inputs, 5 mismatched lengths, 6 / 7 one rank-2 / rank-0 tensor
-// object as both operands); "result" reads Result().
+// object as both operands, 8 prediction of shape PS and target of shape TS, all ones, where
+// not both are rank-1 of one length); "result" reads Result().
 type AccStep struct {
 	Kind string    `json:"kind"`
 	P    []float64 `json:"p,omitempty"`
 	T    []float64 `json:"t,omitempty"`
 	Bad  int       `json:"bad,omitempty"`
+	PS   []int     `json:"ps,omitempty"`
+	TS   []int     `json:"ts,omitempty"`
+}
+
+// roleShape draws the shape of one operand around a batch of n: the valid [n] or a near miss.
+func roleShape(t *rapid.T, n int, label string) []int {
+	switch rapid.IntRange(0, 8).Draw(t, label) {
+	case 0:
+		return []int{}
+	case 1:
+		return []int{1, n}
+	case 2:
+		return []int{n, 1}
+	case 3:
+		return []int{n, 2}
+	case 4:
+		return []int{n + 1}
+	case 5:
+		return []int{1, 1, n}
+	case 6:
+		return []int{n, 1, 1}
+	}
+	return []int{n}
+}
+
+func onesOf(shape []int) tensor.Tensor {
+	v := make([]float64, ref.Prod(shape))
+	for i := range v {
+		v[i] = 1
+	}
+	return lib.MustNew(shape, v, false)
 }
 
 // C19Case: a history on one Accuracy object; Cuts re-partitions the accepted data for a twin.
@@ -60,9 +93,19 @@ func genC19(t *rapid.T) C19Case {
 			c.Steps = append(c.Steps, st)
 		case k <= 7:
 			m := rapid.IntRange(1, 4).Draw(t, "badlen")
-			st := AccStep{Kind: "bad", Bad: rapid.IntRange(1, 7).Draw(t, "bad"), P: make([]float64, m), T: make([]float64, m)}
+			st := AccStep{Kind: "bad", Bad: rapid.IntRange(1, 8).Draw(t, "bad"), P: make([]float64, m), T: make([]float64, m)}
 			for j := 0; j < m; j++ {
 				st.P[j], st.T[j] = 1, 1 // would all match if they were counted
+			}
+			if st.Bad == 8 {
+				// each role's shape drawn on its own; a pair that happens to be valid is an
+				// ordinary accepted batch
+				st.PS, st.TS = roleShape(t, m, "pshape"), roleShape(t, m, "tshape")
+				if len(st.PS) == 1 && len(st.TS) == 1 && st.PS[0] == st.TS[0] {
+					k := st.PS[0]
+					st = AccStep{Kind: "acc", P: make([]float64, k), T: make([]float64, k)}
+					total += k
+				}
 			}
 			c.Steps = append(c.Steps, st)
 		default:
@@ -157,10 +200,19 @@ func checkC19(c C19Case) *Failure {
 			case 7: // one rank-0 tensor object as both operands
 				p = lib.MustNew(nil, []float64{1}, false)
 				t = p
+			case 8:
+				if !ref.ValidDims(st.PS) || !ref.ValidDims(st.TS) || ref.Prod(st.PS) > 4096 || ref.Prod(st.TS) > 4096 ||
+					(len(st.PS) == 1 && len(st.TS) == 1 && st.PS[0] == st.TS[0]) {
+					return nil
+				}
+				p, t = onesOf(st.PS), onesOf(st.TS)
 			default:
 				return nil
 			}
 			if err := acc.Accumulate(p, t); err == nil {
+				if st.Bad == 8 {
+					return failf("step %d: Accumulate accepted a prediction of shape %v with a target of shape %v", si, st.PS, st.TS)
+				}
 				return failf("step %d: invalid Accumulate call (kind %d) returned no error", si, st.Bad)
 			}
 			rejected++
